@@ -180,8 +180,9 @@ def run(ctx):
         runs = [("basic", 3, b4, ["START", "STOP", "Kill"]), ("hook", 3, b4, None),
                 ("ctl", 2, ["sleep", "ignore", "fork", "exit3", "noready", "stuck"], None)]
     else:
-        runs = [("basic", 4, b4, None), ("basic", 3, None, None), ("hook", 4, None, None),
-                ("ctl", 3, ["sleep", "fork", "exit3", "noready", "stuck"], None), ("ctl", 2, None, None)]
+        runs = [("basic", 4, b4, ["START", "STOP", "Kill"]), ("basic", 3, None, None),
+                ("hook", 4, ["sleep", "fork"], None), ("hook", 3, None, None),
+                ("ctl", 3, ["sleep", "fork", "exit3"], ["CONFIGURE", "Kill"]), ("ctl", 2, None, None)]
     scenarios = []
     predicted_new = []
     sid = 0
@@ -194,8 +195,14 @@ def run(ctx):
             sid += 1
             scenarios.append(scn_from_counterexample(sid, r.counterexample(), inv))
             predicted_new.append((sid, inv))
-    # the same model with no exemptions: how many of the four properties the tree-as-it-is model violates (information)
-    # (not run: the generator below reports the predicted violations per plan)
+    # beyond the listed property (information): can a request handler goroutine block for ever?
+    if not quick:
+        rs = ctx.model_check("ExecTaskMC", None, cfg_text=cfg_model("ctl", 2, dev_stop, ["NoStuckHandler"], ["sleep"], ["Kill"]),
+                             files={"ExecTaskMC.tla": mc_module(known)}, workers=WORKERS, timeout=600)
+        if rs.violated:
+            ctx.observations.append("model: two overlapping Kill requests for a controllable task can leave one Kill goroutine blocked for "
+                                    "ever on the one-slot pendingFinalTaskStateCh (invariant NoStuckHandler violated; a goroutine leak, "
+                                    "not an executor hang; not replayed - nothing observable from outside)")
 
     # 2. scenarios: exhaustive enumeration of the plans by TLC
     g = ctx.tlc("ExecTaskGen", None, workers=1, cfg_text=cfg_gen(dev_stop), timeout=600)
